@@ -223,6 +223,13 @@ def run_hypothesis(ctx, prop, strategies, max_examples, salt=0, shrink=True, exc
                 return
             try:
                 prop(*args)
+            except MemoryError:
+                # the shard's address-space net (pbt.run) was hit: a generated case built gigabytes of data; resource
+                # exhaustion of the host is outside every property, the case is discarded
+                import gc
+                gc.collect()
+                ctx.discard('memory-exhausted')
+                return
             except Violation as v:
                 if v.bucket in suppressed:
                     ctx.known_case('suppressed-after-report:' + v.bucket)
